@@ -234,3 +234,9 @@ _rep('C20', 'note', "resbadger index sets, typed values (Type option) and QueryC
      "a stale entry - not in the generated inputs); resbadger's Model.RebuildIndexes (DropPrefix(index name) without the ':' separator, i.e. also every resource whose name starts "
      "with an index name) is outside C20 and not exercised.")
 _rep('C12', 'note', "PARTIAL:", "Known finding: with an empty store prefix an id starting with '<index>:' shares the index's key space (queries fail, RebuildIndexes deletes the value). PARTIAL:")
+
+# ---- wave 6 additions ----------------------------------------------------------------------
+_rep('C01', 'text', "Tie:", "Tie (also: steered schedules same-group - two submissions of one group by the documented rules (same resource, one group template, a wildcard pattern in a mounted sub-mux with its tag behind the mount point, nested routes, the root resource, request + With), the first blocking - and expiry-during-shutdown):") if "Tie:" in TEXT['C01']['text'] else None
+_rep('C09', 'text', "Tie:", "Tie (handlers placed on an ordinary resource, on the service's root resource, or split over a placeholder node and a node below it; a reconnect scenario: the service on a real nats.Conn through a TCP proxy that is cut, an observer connected directly sees the reset again, with and without OnReconnect):") if "Tie:" in TEXT['C09']['text'] else None
+_rep('C13', 'note', "reverse queries assume no key byte 0xFF directly after the prefix.", "bytes are only required to be bytes: the reverse seek was repaired (fix 1fe12a7, prefixEnd) and fetch_spec no longer excludes 0xFF; the idx stream uses binary keys (0xFF written as ~).") if "reverse queries assume no key byte 0xFF" in TEXT['C13']['note'] else None
+_rep('C09', 'note', "Reconnect-triggered resets are not exercised (no real NATS in quick).", "Reconnect-triggered resets are exercised on an embedded nats-server through a TCP proxy (two runs per check).") if "Reconnect-triggered resets are not exercised" in TEXT['C09']['note'] else None
